@@ -6,7 +6,7 @@ import (
 	"time"
 )
 
-const c05Hooks = "VERIF_HOOKS=txn.afterLock=sleep:300us%40;ds.store.afterIDCommit=sleep:150us%25;ds.store.afterCommit=sleep:150us%25;txn.afterIDCommit=sleep:150us%25"
+const c05Hooks = "VERIF_HOOKS=txn.afterLock=sleep:300us%40;ds.store.afterIDCommit=sleep:150us%25;ds.store.afterCommit=sleep:150us%25;txn.afterIDCommit=sleep:150us%25;ds.changes.afterEntry=sleep:100us%20;ds.entities.afterEntry=sleep:100us%20"
 
 // raceViolations classifies race-detector blocks: a block where one side is a runtime map
 // access is crash-capable (the normal runtime aborts the process) and violates "never crashes".
